@@ -1,12 +1,14 @@
 (* Correspondence cases for C01 / C08 / C09 frame codecs. *)
 From Coq Require Import List NArith ZArith Bool.
-From LW Require Export Base.Outcome Base.Bytes Mac.Commands Mac.Spec Mac.Stream Frame.Model Frame.Spec.
+From LW Require Export Base.Outcome Base.Bytes Mac.Commands Mac.Spec Mac.Stream Frame.Model Frame.Spec Text.Base64 Frame.Text.
 Import ListNotations.
 Open Scope N_scope.
 
 Inductive case :=
 (* frame value, MarshalBinary outcome, UnmarshalBinary of those bytes *)
 | CRoundTrip (p : phy) (o_enc : outcome (list N)) (o_dec : outcome phy)
+(* frame value, MarshalText outcome (base64 text as byte values), UnmarshalText of that text *)
+| CText (p : phy) (o_txt : outcome (list N)) (o_dec : outcome phy)
 (* join-accept payload alone (the frame decoder leaves it opaque): JoinAcceptPayload Marshal / Unmarshal *)
 | CJoinAccept (p : payload) (o_enc : outcome (list N)) (o_dec : outcome payload).
 
@@ -28,6 +30,11 @@ Definition check (c : case) : N :=
          (if spec_valid p
           then is_ok o_enc && phyeqb o_dec (Ok (wire_view p))
           else negb (is_panic o_enc) || match pl p with PLJoinAccept _ _ _ _ _ _ _ (Some l) => match cf_payload l with CFPNil => true | _ => false end | _ => false end)
+  | CText p o_txt o_dec =>
+    code (oeqb (phy_marshal_text p) o_txt &&
+          match o_txt with Ok t => phyeqb (phy_unmarshal_text t) o_dec | _ => true end)
+         (if spec_valid p then is_ok o_txt && phyeqb o_dec (Ok (wire_view p))
+          else negb (is_panic o_txt) || match pl p with PLJoinAccept _ _ _ _ _ _ _ (Some l) => match cf_payload l with CFPNil => true | _ => false end | _ => false end)
   | CJoinAccept p o_enc o_dec =>
     code (oeqb (payload_marshal p) o_enc &&
           match o_enc with Ok bs => pleqb (joinaccept_unmarshal bs) o_dec | _ => true end)
